@@ -4,6 +4,7 @@ from ..rules import influence as R1
 from ..rules import verdict as R3
 from ..rules import lenguard as R4
 from ..rules import meet as R1M
+from ..rules import fsbind as RFS
 
 CONFIGS_QUICK = ["default"]
 CONFIGS_THOROUGH = ["default", "nopar", "r1cs"]
@@ -15,6 +16,8 @@ EXPLANATION = (
     "reach the decision with the transcript cut, so no proof component can be replaced freely. R4: wherever the "
     "verifier zips an adversary-sized proof list with the claims, or encodes a vector taken from the proof, a length "
     "comparison must dominate that use - zip and Reed-Solomon encoding silently accept short / stretched inputs. "
+    "RFS: in the IPA verifier every group element of the proof that is multiplied by a hash-derived challenge is "
+    "itself an input of a challenge derivation (otherwise the prover can choose it after the challenge). "
     "R1m: listed pairs of transcript components (opened columns vs the encoding of the opening / well-formedness "
     "vector, leaf index vs transcript-derived index, commitment vs witness, ...) meet in a comparison whose result "
     "reaches the outcome - liveness of each alone does not show they are checked against each other. "
@@ -100,6 +103,11 @@ def run(rep, ctx, tier):
                 continue
             ok, detail, where = R1M.check(ctx, a, A, B)
             rep.add("R1m", "%s:meet:%s" % (a.key, name), ok, "%s: %s" % (name, detail), where)
+        if a.info.get("adt") == "ipa_pc::InnerProductArgPC" and a.method in ("check", "batch_check"):
+            nd = RFS.run(rep, ctx, a, [(e[0], e[1], e[2] if len(e) > 2 else None) for e in a.info["proof"]
+                                       if e[1] in ("l_vec", "r_vec", "hiding_comm")], "RFS")
+            if nd < 1:
+                rep.add("RFS", "%s:floor" % a.key, False, "no digest-based challenge derivation found in the IPA verifier (fail closed)", a.body.span)
         zips += R4.run_zip(rep, ctx, a, "R4a")
         padts = {e[0] for e in a.info["proof"]}
         rep.count("loop_zips_over_proof_vectors", R4.run_loopzip(rep, ctx, a, padts, "R4c"))
